@@ -322,6 +322,20 @@ static void case_aabb_inside(vh::Ctx & c, vh::Rng & r, bool exact_cat)
   } else {
     romea::core::AxisAlignedBoundingBox<S, D> box(ce, h);
     got = box.isInside(p);
+    if (exact_cat) {
+      // faces of the box are at centre -+ half extent (everything representable on the grid)
+      romea::core::Interval<S, D> iv = box.toInterval();
+      bool same = true;
+      for (int j = 0; j < D; ++j) {
+        same = same && (LD)iv.lower()[j] == (LD)ce[j] - (LD)h[j] && (LD)iv.upper()[j] == (LD)ce[j] + (LD)h[j];
+      }
+      c.expect("aabb.to_interval.exact", same, "aabb_interval_mismatch", [&]() {
+          return Params{{"scalar", (double)SN<S>::id}, {"dim", (double)D}, {"dyadic", 1.0}, {"coordinate", -1.0},
+            {"width", (double)(2 * h.maxCoeff())}};
+        }, [&]() {
+          return J().raw("case", wit()).raw("got_lower", vh::jvec(iv.lower())).raw("got_upper", vh::jvec(iv.upper())).str();
+        });
+    }
   }
   if (t == V_AMBIG) {c.skip("aabb.inside:ambiguity_band"); return;}
   auto params = [&]() {
@@ -704,8 +718,9 @@ static SetTruth<S> truth_of(const std::vector<S> & x, int n, int nc, int ncart)
   return t;
 }
 
-// a-priori bound of n-1 sequential additions and one division in S (unit round-off eps/2),
-// doubled: 2 * (n+1) * eps/2 ... kept as 2 * eps * (n + 1) / n * sum|x|  (ratio <= ~0.25 by construction)
+// n-1 sequential additions and one division in S (unit round-off u = eps/2) are off by at most
+// n * u * sum|x| / n (first order); the tolerance is four times that, 2 * eps * (n+1)/n * sum|x|,
+// so the ratio observed/tolerance stays below ~0.25 by construction
 template<class S> static LD mean_tol(LD sabs, int n) {return 2 * epsL<S>() * (LD)(n + 1) / (LD)n * sabs;}
 
 template<class P> struct PT;
